@@ -220,6 +220,30 @@ def rule_fw2(ctx: Ctx) -> RuleResult:
             and len(wr) == 1 and wr[0].extra[0] == EVITEM and wr[0].key == EVKEY
         r.ob(ok, fail(spec, kind, cfg, p, "lag(1): exactly one pair (previous item or the item itself, item) per item, and the item recorded; "
                                           "this path: %s" % (show(it[0].event.payload) if it else summary(p)), "lag1"))
+    # the single-slot implementation is chosen exactly for size == 1 (it pairs each item with the previous one,
+    # which is not what lag(0) or lag(n > 1) mean)
+    lm, lfn = ctx.function("rxsci/data/lag.py", "lag")
+    SIZE = ("arg", lm.scopes[lfn].params[0])
+    def builds_single_slot(f):
+        """f is the function (returned by lag) that builds the single-slot site"""
+        g = site.subscribe_fn
+        while g is not None:
+            if g is f:
+                return True
+            g = site.module.enclosing_function(g)
+        return bool(site.instance_of) and getattr(f, "name", None) == site.short.split(".")[0]
+    for p in ctx.fn_paths(lm, lfn, inline=False):
+        if p.outcome != "return" or p.value is None:
+            continue
+        decs = [e for e in p.trace if e.k == "decision" and any(x == SIZE for x in subterms(e.test))]
+        is_one = p.value[0] == "func" and builds_single_slot(p.value[1])
+        rel_ = [normalise_cmp(e.test, e.outcome) for e in decs]
+        eq1 = [nf for nf in rel_ if nf is not None and dict(nf[1]) in ({SIZE: 1}, {SIZE: -1}) and nf[0] == "Eq" and nf[2] * (1 if dict(nf[1])[SIZE] == 1 else -1) == -1]
+        ne1 = [nf for nf in rel_ if nf is not None and dict(nf[1]) in ({SIZE: 1}, {SIZE: -1}) and nf[0] == "NotEq" and nf[2] * (1 if dict(nf[1])[SIZE] == 1 else -1) == -1]
+        ok = (is_one and len(decs) == 1 and len(eq1) == 1) or (not is_one and len(decs) == 1 and len(ne1) == 1)
+        r.ob(ok, lambda p=p: Finding("FW-2", "rxsci/data/lag.py::lag{dispatch}", lm.where(lfn),
+                                     "lag must use its single-slot implementation exactly when size == 1; this path returns %s under %s" % (
+                                         show(p.value), [e.brief() for e in p.trace if e.k == "decision"]), trace_of(p)))
     site, spec = _spec(ctx, "rxsci/data/lag.py", "lag._lag.on_subscribe", pick=lambda s: _creates_deque(ctx, s))
     r.instances += 1
     for kind, cfg, p in each(spec, ("Next",)):
@@ -460,9 +484,14 @@ def rule_dp6(ctx: Ctx) -> RuleResult:
     fn = m.enclosing_function(call)
     par = m.parent.get(call)
     sel = proj = False
+    seq_ = None
     if isinstance(par, ast.Call) and call in par.args:
-        k = par.args.index(call)
-        rest = par.args[k + 1:]
+        seq_ = par.args
+    elif isinstance(par, (ast.List, ast.Tuple)) and call in par.elts:
+        seq_ = par.elts          # stages = [scan(...), filter(...), map(...)]; rx.pipe(*stages)
+    if seq_ is not None:
+        k = seq_.index(call)
+        rest = seq_[k + 1:]
         cbs = []
         for a in rest:
             if isinstance(a, ast.Call) and a.args:
